@@ -651,5 +651,5 @@ func (p *c12) Assumptions() []string {
 }
 
 func (p *c12) Floors(tier string) map[string]int64 {
-	return map[string]int64{"direct_prints_checked": 20000, "whole_outputs_scanned": 10000, "programs_scanned": 2000, "distinct_nontrivial": 5000}
+	return map[string]int64{"direct_prints_checked": 20000, "whole_outputs_scanned": 10000, "programs_scanned": 2000, "distinct_nontrivial": 5000, "class:explicit-escape-strategy-from-a-variable": 100, "class:filter-section": 100, "class:child-top-level-capture": 100}
 }
